@@ -618,7 +618,9 @@ impl<'a> GeneratorState<'a> {
                             self.asm(BNE, &ExprType::Label(ifend_label.clone()), 0, false)?;
                             self.asm(INC, expr_type, pos, true)?;
                             self.label(&ifend_label)?;
-                            self.flags = FlagsState::Absolute(variable.clone(), *eight_bits, *offset);
+                            // N reflects the low byte when it did not wrap: the flags
+                            // do not describe the 16 bits variable
+                            self.flags = FlagsState::Unknown;
                             self.carry_flag_ok = false;
                         } else {
 // Decrement :
